@@ -241,7 +241,7 @@ pub fn check(tier: Tier) -> i32 {
 	surrealkv::verif::set_forced_height(1);
 	let mut report = Report::new("C14", tier, "model_checking");
 	let budget = Budget::new(if tier == Tier::Quick { 50.0 } else { 600.0 });
-	let (m, p) = if tier == Tier::Quick { (2, 2) } else { (3, 3) };
+	let (m, p) = if tier == Tier::Quick { (2, 3) } else { (3, 3) };
 	let mid_alpha = vec![Cop::W(Kind::Set, b"a"), Cop::W(Kind::Delete, b"b"), Cop::F, Cop::C];
 	let post_alpha = vec![Cop::W(Kind::Set, b"a"), Cop::W(Kind::Set, b"b"), Cop::F, Cop::C, Cop::O];
 	let mut cases = vec![];
